@@ -111,6 +111,7 @@ fn lib_point(b: &[u8]) -> Option<gm_sm9::points::Point> {
 }
 
 fn c14_used(w: &mut World, site: &str, log: &RngLog, used: Option<&BigUint>, case: u64) {
+    w.offered(&log.offered);
     let key = |class: &str| json!({"entry": site, "class": class, "outcome": "Ok"});
     w.check("C14", "drew-fresh", !log.offered.is_empty(), case, key("no-draw"), || format!("{site}: completed without drawing from the random source"));
     match used {
